@@ -27,6 +27,7 @@ func c05Opts(rng *vlib.Rng) idl.GenOpts {
 	o.TypedefEnumSel = true
 	o.HexIDs = true
 	o.DottedFiles = rng.Chance(1, 3)
+	o.SameBaseClash = true
 	return o
 }
 
